@@ -86,7 +86,6 @@ func checkC10(r *Run) {
 	checkBlameP(r, "C10", Scope{Include: []string{"pkg/mpc/session/"}}, 2)
 	checkSentinelErrors(r, "C10.B5")
 }
-func checkC13(r *Run) { genericGuards(r) }
 func checkC15(r *Run) {
 	genericGuards(r)
 	r.CheckSelectorDisjoint("C15.S1", Scope{Include: []string{"pkg/signatures/"}}, 2)
